@@ -76,6 +76,24 @@ type ReadCfg struct {
 	// OnContRead: the OnContinuation handler reads part of the fragment's
 	// body itself (units are then always read to their end).
 	OnContRead bool
+	// SwapSource: after every finished top-level unit the application assigns
+	// Reader.Source anew (a pooled Reader handed to the next user, a wrapper
+	// put around the connection); the value it replaced must not be read again.
+	SwapSource bool
+}
+
+// swapSrc is one value of Reader.Source under ReadCfg.SwapSource.
+type swapSrc struct {
+	r        io.Reader
+	run      *eng.Run
+	replaced bool
+}
+
+func (s *swapSrc) Read(b []byte) (int, error) {
+	if s.replaced {
+		s.run.FailProp("C18", "reader_uses_replaced_source", "the Reader read from a Source value the application had replaced after the previous message (a new Reader would only know the new one)")
+	}
+	return s.r.Read(b)
 }
 
 func (c ReadCfg) Name() string {
@@ -249,6 +267,11 @@ func appReader(r *eng.Run, p *Pipe, cfg ReadCfg, o *Outcome) {
 		src = br
 		pos = func() int { return p.Consumed() - br.Buffered() }
 		r.Probe("reader_source_is_bufio_reader")
+	}
+	var curSrc *swapSrc
+	if cfg.SwapSource {
+		curSrc = &swapSrc{r: src, run: r}
+		src = curSrc
 	}
 	rd := &wsutil.Reader{
 		Source:          src,
@@ -432,6 +455,12 @@ func appReader(r *eng.Run, p *Pipe, cfg ReadCfg, o *Outcome) {
 				r.Failf("reader_not_as_new_after_message", "Read without NextFrame after a finished message returned (%d, %v); a new Reader returns (0, %v)", n, err, wsutil.ErrNoFrameAdvance)
 			}
 			r.Probe("read_without_next_frame_after_message")
+		}
+		if cfg.SwapSource {
+			curSrc.replaced = true
+			curSrc = &swapSrc{r: curSrc.r, run: r}
+			rd.Source = curSrc
+			r.Probe("reader_source_replaced_between_messages")
 		}
 	}
 }
